@@ -394,11 +394,8 @@ func (o *authOracle) c19(e *Env, si *StepInfo) {
 					o.once(e, "C19", "C19.penalty", lab, "penalty-out-of-bounds", k, fmt.Sprintf("penalty on %s: reward %s->%s, collateral %s->%s", fmtAddr(k), pp.Reward.Amount, cp.Reward.Amount, pp.TotalStoragePledged.Amount, cp.TotalStoragePledged.Amount))
 				}
 			}
-			for _, k := range sortedKeys(cur.Node.Nodes) {
-				if pn, had := prev.Node.Nodes[k]; !had || pn.Status != cur.Node.Nodes[k].Status || pn.Role != cur.Node.Nodes[k].Role {
-					o.once(e, "C19", "C19.scope", lab, "node-record-changed-by-fault-tx", k, fmt.Sprintf("%s changed node %s", si.Op.K, fmtAddr(k)))
-				}
-			}
+			// (node registration records are not in the property's list of things a fault transaction
+			// must leave alone; a status change of a node is not judged here)
 		}
 	}
 }
